@@ -26,6 +26,7 @@ const (
 	kfNegFraction   = "fixedn-negative-fraction-sign"     // -1 < value < 0 loses its sign in ToString/FromString/Fixed8FromString
 	kfFixed8Min     = "fixed8-minint64-string"            // Fixed8(MinInt64).String() == "--92233720368"
 	kfFracOver64    = "fixedn-tostring-fraction-over-64b" // ToString prints a wrong fraction when it needs more than 64 bits (precision >= 20)
+	kfSigMalleable  = "signature-malleability-high-s"     // (r, N-s) verifies whenever (r, s) does: no low-S rule
 	kfAddressLength = "address-decode-length"             // StringToUint160 panics on / accepts Base58Check payloads whose length is not 21
 )
 
